@@ -160,6 +160,7 @@ func fioSplitCorrespondence(c *Ctx) {
 }
 
 func runFIOKnown(c *Ctx) {
+	wireNilDict = true
 	if c.Thorough {
 		// the model needs about 25 s for this one line (association-list lookups)
 		fioSplitCorrespondence(c)
